@@ -60,7 +60,8 @@ def chunk(data: bytes, sizes) -> list[bytes]:
         if s <= 0 or pos >= len(data): continue
         out.append(data[pos:pos + s]); pos += s
     if pos < len(data): out.append(data[pos:])
-    return out
+    # a record length is a u16: no piece can exceed 65535 bytes
+    return [c[i:i + 65535] for c in out for i in range(0, len(c), 65535)]
 
 
 def tls_records(msg: bytes, sizes, recvers=None) -> bytes:
@@ -384,7 +385,8 @@ class Check(PropertyCheck):
                   "validHost_of_labels/_too_long/_non_ascii (SNI of LDH/underscore names independent of the idna/ipaddress "
                   "library), starts_table_is_function + starts_three_bytes_suffice (the probed starts_like_*_record table equals "
                   "the source expression transcribed from the AST on every byte string) — all for ALL byte strings (induction, "
-                  "no bounds). DTLS handshake *fragmentation* is stated in full, proved only for unfragmented flights "
+                  "no bounds); record_any_size_accepted / record_header_prefix_incomplete (no record-size bound below 65535: examples at "
+                  "2^14, 2^14+1, 65535). DTLS handshake *fragmentation* is stated in full, proved only for unfragmented flights "
                   "(_partial) with a proved counterexample (finding F-C13a). Model tied to the code differentially on every "
                   "case: outcome class, PREDICTED sni (is_valid_host computed by the model), ALPN list, cipher list, extension "
                   "(type, bytes) list, for whole inputs, prefixes and segment-by-segment feeding; is_valid_host and "
@@ -396,6 +398,10 @@ class Check(PropertyCheck):
                   "Gen holds both the AST transcription and the probed behaviour, Lean proves them equal. The ground-truth "
                   "oracle demands the exact SNI only for a single host_name entry that is an RFC 6066 LDH host name (or no "
                   "host_name entry: None); for other names it only demands None-or-one-of-the-offered-host_names. "
+                  "Lenient branches of the oracle: (1) that SNI rule; (2) the per-prefix expectation "
+                  "(incomplete before the hello's last record ends, the hello from there on) is not applied to fragmented DTLS "
+                  "flights (F-C13a); (3) mutated/random inputs (kinds bytes, msg) have no independent reading: only totality and "
+                  "the split/segmentation equalities are demanded of them. "
                   "dtls_fragment_invariant is NOT proved (false for the current code: F-C13a) — only "
                   "dtls_fragment_invariant_partial (single fragment) and its counterexample are.")
     technique = "Lean 4 proof (fuel-bounded total parsers, induction over records/extensions) + differential model-vs-code correspondence + independent builder/reader oracle + real OpenSSL hellos"
@@ -403,7 +409,8 @@ class Check(PropertyCheck):
             "cookies, no extension block) wrapped under random record chunkings/record versions and TCP cuts; short hellos: every "
             "2-record split x every prefix; real: ssl/pyOpenSSL memory-BIO ClientHellos (TLS1.3, TLS1.2-only, DTLS, big DTLS "
             "flights that OpenSSL fragments) re-chunked and cut; msg: arbitrary/mutated handshake bytes under two chunkings; "
-            "bytes: single-field mutants, truncations and raw random bytes. distinct = digest of (dtls, wire bytes, cuts); "
+            "boundary: hellos padded so that one record is exactly 16383/16384/16385/32768/65535 bytes (and splits around them, "
+            "message lengths up to 2^16+); bytes: single-field mutants, truncations and raw random bytes. distinct = digest of (dtls, wire bytes, cuts); "
             "non-trivial = non-empty input.")
     budget = {"quick": 2600, "thorough": 100000}
     time_budget = {"quick": 30, "thorough": 600}
@@ -545,7 +552,11 @@ class Check(PropertyCheck):
         if dtls: spec["cookie_hex"] = "-"
         hdr = 12 if dtls else 4
         pad = n_msg - (len(build_body(spec)) + hdr)
-        if not 0 <= pad <= 65535: raise ValueError("big_spec: size out of range")
+        if pad > 60000:                        # the extension block is a u16 vector: grow the cipher list as well
+            extra = min((pad - 50000) // 2, 30000)
+            spec["ciphers"] = spec["ciphers"] + [0x0a0a] * extra
+            pad -= 2 * extra
+        if not 0 <= pad <= 65000: raise ValueError("big_spec: size out of range")
         spec["exts"][2]["data_hex"] = hx(b"\x00" * pad)
         if layer: spec["layer"] = 1
         return spec
@@ -563,10 +574,10 @@ class Check(PropertyCheck):
             yield self.big_spec(n, dtls=1, cuts=[13], layer=1)                  # DTLS: one record of n bytes
         yield self.big_spec(65535, cuts=[5])                                    # the largest record the length field can say
         yield self.big_spec(65536, chunks=[65535], cuts=[65540], layer=1)       # message length 2^16: 65535 + 1
-        yield self.big_spec(65536, chunks=[32768])
-        yield self.big_spec(65600, chunks=[64, 65535])
-        yield self.big_spec(65535, dtls=1)
         if tier == "thorough":
+            yield self.big_spec(65536, chunks=[32768])
+            yield self.big_spec(65600, chunks=[64, 65535])
+            yield self.big_spec(65535, dtls=1)
             for n in (16382, 16386, 32767, 32769, 65534):
                 yield self.big_spec(n); yield self.big_spec(n + 7, chunks=[7]); yield self.big_spec(n, dtls=1)
 
@@ -714,7 +725,7 @@ class Check(PropertyCheck):
         recent = []
         while True:
             r = rng.random()
-            if rng.chance(0.008):
+            if rng.chance(0.004):
                 yield self.gen_big(rng)
             elif rng.chance(0.12):
                 yield {"kind": "host", "name_hex": hx(self.gen_host(rng))}
@@ -852,10 +863,11 @@ class Check(PropertyCheck):
         h = int(hashlib.sha256(wire).hexdigest()[:8], 16)
         n = len(wire)
         pts = {0, n // 2, max(0, n - 1), h % (n + 1), (h >> 8) % (n + 1), min(n, 5), min(n, 13)}
+        if n > 4000: pts = {min(n, 13 if case["dtls"] else 5)}      # big inputs: header prefix + the record-end points below
         if case["kind"] in ("built", "real") and self.n_frags(case) < 2:
             try:
                 e = hello_end_offset(wire, bool(case["dtls"]))
-                pts |= {max(0, e - 1), e, min(n, e + 1)}         # just before / at / after the completing record's end
+                pts |= {max(0, e - 1), e} | ({min(n, e + 1)} if n <= 4000 else set())   # just before / at / after the completing record's end
             except NotWellFormed:
                 pass
         return sorted(pts)
